@@ -157,6 +157,13 @@ class NoResponseFromSubnetComponent(
     pass
 
 
+class FailurePreventsExecutionOfRequestedAction(
+    UnexpectedNegativeResponse,
+    response_code=UDSErrorCodes.failurePreventsExecutionOfRequestedAction,
+):
+    pass
+
+
 class RequestOutOfRange(UnexpectedNegativeResponse, response_code=UDSErrorCodes.requestOutOfRange):
     pass
 
